@@ -15,7 +15,7 @@ func init() {
 		Min:   12,
 		Doc: "bounded-allocation: in the receive/decoding code of internal/transfer and the dumb receiver, every make([]T, n) / make(chan T, n) / bufpool.New(n) / chunkPoolFor(n) whose size derives from an integer read off a stream " +
 			"is sized by a value of at most 16 bits, or by len() of bytes already held, or is dominated by a comparison that rejects n above a bound; byte fields with 32-bit length prefixes are read through an incremental reader " +
-			"(io.LimitReader + io.ReadAll) so that memory follows the bytes received",
+			"(io.LimitReader + io.ReadAll) so that memory follows the bytes received; the sidecar constructors, which allocate ceil(size / chunk size) bits, are sinks too when both values come off the stream (accepted past a dominating upper bound on the chunk count computed from the same two values; live code only)",
 		Run: runAlloc,
 	})
 	Register(&Rule{
@@ -307,6 +307,71 @@ func runAlloc(c *Ctx) {
 			if g := p.CalleeInfo(info, call); g != nil && (g.Name == "bufpool.New" || g.Name == "transfer.chunkPoolFor") && len(call.Args) == 1 {
 				size = call.Args[0]
 				what = g.Name
+			}
+			// resume metadata: a bitmap of ceil(fileSize / chunkSize) bits is allocated (and written to disk) by these calls
+			if g := p.CalleeInfo(info, call); g != nil && size == nil {
+				si, ci := -1, -1
+				switch g.Name {
+				case "transfer.CreateSidecar", "transfer.LoadOrCreateSidecar":
+					si, ci = 2, 3
+				case "transfer.LoadOrCreateSidecarWithFallback":
+					si, ci = 3, 4
+				}
+				if si >= 0 && len(call.Args) > ci {
+					wire := func(e ast.Expr) bool {
+						hit := false
+						ast.Inspect(e, func(m ast.Node) bool {
+							if x, ok := m.(ast.Expr); ok {
+								switch x.(type) {
+								case *ast.Ident, *ast.SelectorExpr:
+									if k.Of(info, x) == "wire" {
+										hit = true
+									}
+								}
+							}
+							return true
+						})
+						return hit
+					}
+					live := p.LiveFuncs()
+					inSidecarFile := strings.HasSuffix(f.Prog.Fset.Position(f.Pos()).Filename, "/sidecar.go")
+					if wire(call.Args[si]) && wire(call.Args[ci]) && (live[f] || live[f.Root()]) && !inSidecarFile {
+						n++
+						key := fmt.Sprintf("alloc/%s#%d/%s", f.Name, n, g.Name)
+						c.Stat("allocations", 1)
+						// a dominating upper bound on a chunk-count variable computed from the same size and chunk size
+						sz, cs := types.ExprString(StripConv(info, call.Args[si])), types.ExprString(StripConv(info, call.Args[ci]))
+						bounded := false
+						for g := f; g != nil && !bounded; g = g.Parent {
+							InspectNoLits(g.Body, func(m ast.Node) bool {
+								as, ok := m.(*ast.AssignStmt)
+								if !ok || len(as.Lhs) != 1 || len(as.Rhs) != 1 {
+									return true
+								}
+								var q *ast.BinaryExpr
+								ast.Inspect(as.Rhs[0], func(x ast.Node) bool {
+									if be, ok := x.(*ast.BinaryExpr); ok && be.Op == token.QUO && q == nil {
+										q = be
+									}
+									return q == nil
+								})
+								if q == nil || types.ExprString(StripConv(g.Info(), q.Y)) != cs || !strings.Contains(types.ExprString(q.X), sz) {
+									return true
+								}
+								if o := ObjOf(g.Info(), as.Lhs[0]); o != nil && bs.Passed(f, r, "bounded:"+o.Name()) {
+									bounded = true
+								}
+								return true
+							})
+						}
+						if bounded {
+							c.OK(key, call.Pos(), "the chunk count computed from the same size and chunk size has a dominating upper bound: the bitmap is bounded")
+						} else {
+							c.Bad(key, call.Pos(), fmt.Sprintf("%s allocates (and writes to disk) a bitmap of %s / %s bits, both read off the stream, with no lower bound on the chunk size: a FileBegin of a few bytes announcing 256 MiB in chunks of 1 byte makes the receiver reserve 128 MiB", g.Name, types.ExprString(call.Args[si]), types.ExprString(call.Args[ci])))
+						}
+						return
+					}
+				}
 			}
 			if size == nil {
 				return
